@@ -3,7 +3,7 @@ from vcommon import *
 import scen_common, prop_mu_family
 
 PID = "C13"
-PROP_V = ["Props/Properties_C13.v", "Props/Properties_C13b.v", "Props/Properties_C13r.v", "Props/Properties_C13x.v", "Props/Properties_C05sw.v"]
+PROP_V = ["Props/Properties_C13.v", "Props/Properties_C13b.v", "Props/Properties_C13r.v", "Props/Properties_C13x.v", "Props/Properties_C13w.v", "Props/Properties_C05sw.v"]
 GEN_MODULES = ["Consts", "Sites"]
 FLOW_FILES = ['mu.c', 'sem_wait.c', 'note.c', 'mu_wait.c', 'cv.c', 'wait.c', 'counter.c']
 REPLAY_HINT = "VRT_SEED=<seed> [env] _work/h/<scenario>: the arena unmaps freed blocks (UAF) and the runtime knows every thread's parked stack pointer (DEADSTACK)"
@@ -42,8 +42,14 @@ PARTIAL = ["Properties_C13b proves by computation over the regenerated Gen/Flow.
            "with the release step of the code before 0f631a1 reaches bad = true on the F15 schedule (C13x_f15_old_stale_bit: word 268 over an empty queue; "
            "C13x_f15_old_window: freed while D sits in nsync_mu_unlock_slow_ with an empty wake list); C13x_f15_schedule_repaired: harmless under the repaired step.  "
            "Random exploration of the extracted model (3*10^5 programs) finds neither a violation of the repaired model nor F15 in the old one (too deep): only the scripted "
-           "schedule does.  Still outside any theorem: the pattern around nsync_mu_wait (MuWaitModel has no refcount wrapper; refcount VRT_MUWAIT=1 and mix_all are the "
-           "oracle there; the stale bits a timed-out nsync_mu_wait leaves come with MU_CONDITION, which makes the release late).  A thread that meets MU_CONDITION crashes "
+           "schedule does.  THE REFCOUNT THEOREM AROUND CONDITIONAL CRITICAL SECTIONS (Properties_C13w over Model/MuWRefModel.v = MuWaitModel + refs / freed / bad; any programs of "
+           "lock / rlock / trylock / set-condition / nsync_mu_wait_with_deadline in either mode with deadlines, cancellation and timeouts INSIDE the critical section / "
+           "nsync_mu_unlock_without_wakeup, then the write-mode decrement round): C13w_no_touch_after_free; the argument 'a timed-out nsync_mu_wait leaves MU_WAITING stale "
+           "but together with MU_CONDITION, which makes the release late' is now an invariant (C13w_stale_waiting_has_condition, C13w_release_window), non-vacuous by "
+           "C13w_stale_example (word 21 over an empty queue, a late release with an empty wake list) and C13w_tail_example (free while another thread is at its V after a "
+           "conditional scan); 4*10^5 random programs (replay/muwref_explore.ml) found no violation beforehand.  The wrapper steps MuWaitModel unchanged (its tie is "
+           "muwait_replay on muwait_mix); refcount VRT_MUWAIT=1 remains the real-library oracle.  NOT covered by one theorem: mutex + cv + nsync_mu_wait users together "
+           "(MuAllModel has no refcount wrapper): mix_all is the oracle there.  A thread that meets MU_CONDITION crashes "
            "in these models and keeps its reference; the models' footprint is word + queue, reads included by pc",
            "waker half (cv / note / counter vs nsync_wait_n and cancellable waits): arena + dead-stack oracles over sampled schedules"]
 TRUSTED_BASE = ["replay/waitn_replay.ml footprint comparison: attribution of traced events to model steps by the scenario's brackets and linearization events; stack regions carry no offsets",
@@ -62,7 +68,7 @@ def run(tier, seed):
     for k in ("traces_validated_against_impl", "lockstep_model_steps"):
         tie[k] = tie.get(k, 0) + tie2.get(k, 0) + tie3.get(k, 0) + tiex.get(k, 0)
     tie["model_sites_hit_muxfer"] = tiex.get("model_sites_hit", {})
-    specs = [("mix_all", {}, 2000, 40000), ("mix_all", {"VRT_DEBUGGER": 1, "VRT_RACE": 0}, 600, 10000), ("refcount_cv", {}, 400, 6000), ("refcount_cv", {"VRT_SCRIPT": 0}, 1500, 30000), ("refcount", {}, 3000, 60000), ("refcount", {"VRT_RMODE": 1}, 1000, 20000), ("refcount", {"VRT_MUWAIT": 1}, 3000, 60000), ("refcount", {"VRT_MUWAIT": 1, "VRT_PLAINPM": 30}, 1500, 30000),
+    specs = [("note_waitwin", {"VRT_AIM": 60}, 2500, 40000), ("mix_all", {}, 2000, 40000), ("mix_all", {"VRT_DEBUGGER": 1, "VRT_RACE": 0}, 600, 10000), ("refcount_cv", {}, 400, 6000), ("refcount_cv", {"VRT_SCRIPT": 0}, 1500, 30000), ("refcount", {}, 3000, 60000), ("refcount", {"VRT_RMODE": 1}, 1000, 20000), ("refcount", {"VRT_MUWAIT": 1}, 3000, 60000), ("refcount", {"VRT_MUWAIT": 1, "VRT_PLAINPM": 30}, 1500, 30000),
              ("waitn_mix", {"VRT_PLAINPM": 40}, 2000, 60000), ("waitn_mix", {"VRT_AIM": 60}, 4000, 60000), ("waitn_mix", {"VRT_AIM": 60, "VRT_KIND": 1}, 4000, 60000),
              ("waitn_mix", {"VRT_AIM": 60, "VRT_KIND": 2}, 2000, 30000), ("cancel_mix", {"VRT_AIM": 60}, 1500, 30000), ("cv_mix", {"VRT_MODE": 3, "VRT_PLAINPM": 40}, 1000, 20000), ("waitn_mix", {}, 3000, 60000),
              ("cv_mix", {"VRT_MODE": 0}, 1000, 20000), ("note_mix", {"VRT_FAMILY": 1}, 800, 15000)]
